@@ -189,19 +189,22 @@ def exact_start(cx, entry="rootfinder", method="broyden1", complex_=False, shape
     return "ok"
 
 
-def descent(cx, method="gd", maxiter=2, step=0.25, extra=None):
-    """gd/adam on the convex quadratic c*(y-r)^2 + d with 0 < 2*step*c < 1: silent return => f(y) <= f(y0)"""
+def descent(cx, method="gd", maxiter=2, step=0.25, extra=None, small_step=True, momentum=0.0):
+    """gd/adam on the convex quadratic c*(y-r)^2 + d: the returned point (with or without warning) has f(y) <= f(y0).
+    small_step: 0 < 2*step*c < 1 assumed (monotone descent); without it (and with momentum / adam, whose first steps have
+    length `step` whatever the gradient) the iterates may overshoot, and the claim rests on the best-point bookkeeping"""
     c = cx.scalar("c", lo=0.25, hi=1.5, positive=True)
     r = cx.scalar("r")
     d = cx.scalar("d")
     y0 = cx.sym("y0", (1,))
-    cx.assume(c * (2 * step) < 1, note="step small enough for monotone descent")
+    if small_step:
+        cx.assume(c * (2 * step) < 1, note="step small enough for monotone descent")
 
     def f(y):
         return (c * (y - r) * (y - r) + d).sum()
     opts = dict(method=method, maxiter=maxiter, step=step)
     if method == "gd":
-        opts["gamma"] = 0.0
+        opts["gamma"] = momentum
     if extra:
         opts.update(extra)
     import warnings
@@ -247,6 +250,9 @@ def configs(tier):
     add("equilibrium2d/linearmixing/affine/it1", rf2d, entry="equilibrium", method="linearmixing", maxiter=1, alpha=-0.5)
     add("minimize/gd/quadratic/it2", descent, method="gd", maxiter=2)
     add("minimize/gd/quadratic/it3", descent, method="gd", maxiter=3)
+    add("minimize/gd/quadratic/any_step/momentum/it3", descent, method="gd", maxiter=3, small_step=False, momentum=0.9)
+    add("minimize/adam/quadratic/any_step/it2", descent, method="adam", maxiter=2, small_step=False,
+        opts={"budget_s": 300, "timeout_ms": 30000})
     if tier == "thorough":
         big = {"budget_s": 1700, "max_paths": 1500}
         for method, alpha, it in (("linearmixing", -1.0, 3), ("broyden1", -1.0, 2), ("broyden2", -0.5, 2), ("newton", None, 2)):
